@@ -1,6 +1,6 @@
 //! Scenario format and its interpreter: maps every operation of the spec's client alphabet to
 //! the public API call of the real crate and records what happened.
-use crate::actors::{ActorScripts, CMsg, Desc, Effect, H, Reply, SMsg, WORLD};
+use crate::actors::{ActorScripts, Bc, Bc2, CMsg, Desc, Effect, H, Reply, SMsg, WORLD};
 use crate::exec::{Decision, Exec, Kind, YieldFut, ev, take_log};
 use futures::future::LocalBoxFuture;
 use hannibal::{
@@ -119,8 +119,20 @@ pub trait AddrLike {
     fn weak_sender(&self) -> WeakSender<SMsg>;
     fn weak_caller(&self) -> WeakCaller<CMsg>;
     fn aid(&self) -> u64;
+    fn into_sender_unit(self: Box<Self>) -> Sender<()>;
+    fn into_sender_bc(self: Box<Self>) -> Sender<Bc>;
+    fn into_sender_bc2(self: Box<Self>) -> Sender<Bc2>;
 }
 impl<const K: usize> AddrLike for Addr<H<K>> {
+    fn into_sender_unit(self: Box<Self>) -> Sender<()> {
+        (*self).into()
+    }
+    fn into_sender_bc(self: Box<Self>) -> Sender<Bc> {
+        (*self).into()
+    }
+    fn into_sender_bc2(self: Box<Self>) -> Sender<Bc2> {
+        (*self).into()
+    }
     fn send(&self, m: SMsg) -> LocalBoxFuture<'_, HResult<()>> {
         Box::pin(Addr::send(self, m))
     }
@@ -285,6 +297,8 @@ struct Tables {
     handles: HashMap<String, HandleV>,
     /// context id -> actor name
     names: HashMap<u64, String>,
+    /// handle -> actor it was given to (children to be)
+    given: HashMap<String, String>,
 }
 thread_local! { static TAB: RefCell<Tables> = RefCell::new(Tables::default()); }
 
@@ -293,6 +307,23 @@ fn take_h(name: &str) -> HandleV {
 }
 fn put_h(name: &str, h: HandleV) {
     TAB.with(|t| t.borrow_mut().handles.insert(name.to_string(), h));
+}
+/// A handle that was given to actor `owner` (scenario op `give`), to be registered as its child.
+pub fn take_child(name: &str, owner: &str) -> Option<Box<dyn AddrLike>> {
+    TAB.with(|t| {
+        let mut t = t.borrow_mut();
+        if t.given.get(name).map(String::as_str) != Some(owner) {
+            return None;
+        }
+        match t.handles.remove(name) {
+            Some(HandleV::Addr(a)) => Some(a),
+            Some(other) => {
+                t.handles.insert(name.to_string(), other);
+                None
+            }
+            None => None,
+        }
+    })
 }
 fn actor_of(aid: u64) -> String {
     TAB.with(|t| t.borrow().names.get(&aid).cloned()).unwrap_or_else(|| format!("?{aid}"))
@@ -526,6 +557,7 @@ async fn run_op(c: &str, n: i64, o: &Op) -> Res {
         }
         "give" => {
             let a = TAB.with(|t| t.borrow().handles.get(&o.h).map(|h| actor_of(h.aid()))).expect("harness: give unknown handle");
+            TAB.with(|t| t.borrow_mut().given.insert(o.h.clone(), o.to.clone()));
             r("ok", a)
         }
         "detach" => {
